@@ -30,7 +30,7 @@ type c01Scenario struct {
 
 // addCycle rewrites the layout so that it contains a reference cycle.
 func addCycle(g *G, L *Layout) {
-	kind := g.pick("cycle-kind", []string{"extends", "extends-xfile", "include", "alias", "alias-fanout", "depends_on"})
+	kind := g.pick("cycle-kind", []string{"extends", "extends", "extends-xfile", "extends-xfile", "include", "include", "alias", "alias", "depends_on", "depends_on", "depends_on", "alias-fanout"})
 	root := L.WorkingDir
 	main := L.Main[0]
 	switch kind {
